@@ -11,9 +11,11 @@ ID = 'C15'
 LEVEL = 'exploration'
 RULE = ('all formulas with <=2 operators (+ arithmetic/predicate nestings) x all spelling variants: operator aliases (two alias assignments per formula so '
         'that every alias of every operator occurs), interval separators , and :, 0-2 redundant parenthesis levels around every operand, with/without '
-        'trailing ; and assertion head, the MINIMALLY parenthesised spelling derived from the alternative order of StlParser.g4 (read at run time), and the '
+        'trailing ; and assertion head, white space / line ends / comments before, inside and after the text (with and without the trailing ;), the MINIMALLY parenthesised spelling derived from the alternative order of StlParser.g4 (read at run time), and the '
         'LTL front end for untimed formulas; every variant must parse and return, on all traces up to length 3, the values of the fully parenthesised '
         'keyword spelling (which must equal the reference rho, so grouping follows the grammar); unless[a,b] must equal always[0,b] p or p until[a,b] q; '
+        'same-object layer: for bounded-future and past formulas all variants are given one after the other to ONE online object (spec.spec = variant; parse(); pastify(); reset(); updates) '
+        'and must return what a fresh object with the canonical spelling returns; '
         'non-trivial = variant whose text differs from the canonical spelling and whose reference output is not constant +-inf')
 ASSUMPTIONS = ['the precedence model is read from the order of the alternatives in StlParser.g4; values V3/{-1,2}',
                'identical results on all traces up to length 3 are taken as "same monitor"; identical spec_print() is used as a fast path only']
@@ -60,10 +62,81 @@ def unless_unit_cases():
     return out
 
 
+def same_object_set(tier):
+    """bounded-future formulas (pastify() rewrites them) and past formulas whose variants are parsed one after the other on ONE online object"""
+    fs = [f for f in formula_set(tier) if not F.is_temporal_unbounded_future(f) and F.size(f) <= 2 and len(F.fvars(f)) >= 1]
+    fut = [f for f in fs if F.has_op(f, F.FUTURE)]
+    past = [f for f in fs if not F.has_op(f, F.FUTURE)]
+    px, py, X, Y = F.PX, F.PY, F.X, F.Y
+    extra = [('implies', X, ('unless', (1, 2), px, py)), ('and', Y, ('eventually', (1, 2), X)), ('or', ('next', ('next', px)), X), ('iff', X, ('until', (0, 1), Y, px))]
+    step_f, step_p = (12, 40) if tier == 'quick' else (3, 10)
+    return extra + fut[::step_f] + past[::step_p]
+
+
+def run_same_object(res, mod, f, tier):
+    """one online specification object is given every variant in turn: spec.spec = variant; parse(); pastify(); reset(); then a run of update()
+    calls.  Every run must return what a fresh object with the fully parenthesised keyword spelling returns"""
+    from . import c03
+    vs = sorted(F.fvars(f))
+    fj = F.to_json(f)
+    canon_text = 'out = ' + F.pr(f)
+    traces = [t for t in F.traces(4, F.V2, len(vs)) if len(t) == 4][::(3 if len(vs) == 2 else 1)]
+    if c03.site({'formula': fj, 'pastify': True}):
+        return
+    want = []
+    for t in traces:
+        o = impl.build('dt_on', canon_text, vs, pastify=True)
+        want.append([impl.outcome(impl.dt_update, o, i, dict(zip(vs, e))) for i, e in enumerate(t)])
+    spec = impl.build('dt_on', canon_text, vs, pastify=True)
+    impl.outcome(impl.dt_update, spec, 0, dict(zip(vs, traces[0][0])))
+    res.formulas += 1
+    seq = [v for v in variants(f) if v[2] == 'stl']
+    for vi, (tag, text, fe) in enumerate(seq):
+        case = {'same_object': True, 'formula': fj, 'vars': vs, 'canonical': canon_text, 'texts': [t for _, t, _ in seq[:vi + 1]]}
+        spec.spec = text
+        k, v = impl.outcome(spec.parse)
+        if k == 'ok':
+            k, v = impl.outcome(spec.pastify)
+        if k == 'ok':
+            k, v = impl.outcome(spec.reset)
+        res.evaluations += 1
+        if k != 'ok':
+            res.violation(mod, case, 'variant %r given to an object that held other variants before: parse()/pastify()/reset() raised %s' % (text, v))
+            res.outcomes['same object: raised'] += 1
+            return
+        msg = None
+        for t, w in zip(traces, want):
+            got = [impl.outcome(impl.dt_update, spec, i, dict(zip(vs, e))) for i, e in enumerate(t)]
+            if explore_snapshot(got) != explore_snapshot(w):
+                msg = ('variant %r parsed on an object that held %d other variants before returns %r on %r; a fresh object with the canonical spelling returns %r'
+                       % (text, vi + 1, [g[1] for g in got], [list(e) for e in t], [g[1] for g in w]))
+                break
+            k, v = impl.outcome(spec.reset)
+            if k != 'ok':
+                msg = 'reset() raised %s' % (v,)
+                break
+        if msg:
+            res.violation(mod, case, msg)
+            res.outcomes['same object: differs'] += 1
+            return
+        res.outcomes['same monitor'] += 1
+        res.flags['same_object_variants'] += 1
+        res.nontrivial += 1
+        res.digest(text, 'same-object', msg)
+    res.sample({'canonical': canon_text, 'variants_on_one_object': [t for _, t, _ in seq][:4]}, 1)
+
+
+def explore_snapshot(x):
+    from .. import explore
+    return explore.snapshot(x)
+
+
 def shards(tier):
     fs = formula_set(tier)
     per = 15 if tier == 'quick' else 6
     out = [{'formulas': [F.to_json(f) for f in fs[i:i + per]]} for i in range(0, len(fs), per)]
+    so = same_object_set(tier)
+    out += [{'same_object': [F.to_json(f) for f in so[i:i + 4]]} for i in range(0, len(so), 4)]
     n = len(unless_unit_cases())
     for i in range(0, n, 25):
         out.append({'unless': [i, min(n, i + 25)]})
@@ -125,6 +198,12 @@ def variants(f):
     if not any(F.interval(g) is not None for g in F.subforms(f)):
         out.append(('ltl min', 'out = ' + S.spell(f, 0, ',', 0, 'min'), 'ltl'))
         out.append(('ltl full alias', 'out = ' + S.spell(f, 1, ',', 1, 'full'), 'ltl'))
+    # layout: white space, line ends and comments around and inside the text (all layouts for every fifth formula, three of them for the others)
+    t0 = 'out = ' + S.spell(f, 0, ',', 0, 'min')
+    lay = layouts(t0)
+    pick = range(len(lay)) if len(t0) % 5 == 0 else [(len(t0) + j * 5) % len(lay) for j in range(3)]
+    for j in pick:
+        out.append(('layout %s' % lay[j][0], lay[j][1], 'stl'))
     seen = set()
     res = []
     for tag, text, fe in out:
@@ -132,6 +211,15 @@ def variants(f):
             seen.add((text, fe))
             res.append((tag, text, fe))
     return res
+
+
+def layouts(t):
+    """(name, text): the same token sequence laid out differently; ';' is the optional trailing semicolon of the last assertion"""
+    return [('newline after', t + '\n'), ('blank after', t + ' '), ('newline before', '\n' + t), ('; newline', t + ';\n'), ('; blank', t + '; '),
+            ('; tab newlines', t + ';\t\n\n'), ('line comment, no ;', t + ' // end'), ('; line comment', t + '; // end'),
+            ('block comment, no ;', t + ' /* end */'), ('; block comment', t + '; /* end */'), ('block comment before', '/* head */ ' + t),
+            ('line comment before', '// head\n' + t + ';'), ('one token per line', t.replace(' ', '\n')), ('tabs', t.replace(' ', '\t')),
+            ('; CR LF', t + ';\r\n'), ('comment inside', t.replace(' ', ' /* c */ ', 1)), ('line comment then ;', t + ' // end\n;')]
 
 
 def build(text, vs, fe):
@@ -170,7 +258,9 @@ def run_shard(shard, tier, res):
             res.digest(text, du, msg)
         res.sample({'unless': text, 'expansion': exp}, 1)
         return
-    for fj in shard['formulas']:
+    for fj in shard.get('same_object', ()):
+        run_same_object(res, mod, F.from_json(fj), tier)
+    for fj in shard.get('formulas', ()):
         f = F.from_json(fj)
         vs = sorted(F.fvars(f))
         res.formulas += 1
@@ -207,7 +297,32 @@ def run_shard(shard, tier, res):
         res.sample({'canonical': canon_text, 'variants': [t for _, t, _ in variants(f)][:4]}, 1)
 
 
+def replay_same_object(case):
+    vs = case['vars']
+    traces = [t for t in F.traces(4, F.V2, len(vs)) if len(t) == 4][::(3 if len(vs) == 2 else 1)]
+    want = []
+    for t in traces:
+        o = impl.build('dt_on', case['canonical'], vs, pastify=True)
+        want.append([impl.outcome(impl.dt_update, o, i, dict(zip(vs, e))) for i, e in enumerate(t)])
+    spec = impl.build('dt_on', case['canonical'], vs, pastify=True)
+    impl.outcome(impl.dt_update, spec, 0, dict(zip(vs, traces[0][0])))
+    for text in case['texts']:
+        spec.spec = text
+        for step in (spec.parse, spec.pastify, spec.reset):
+            k, v = impl.outcome(step)
+            if k != 'ok':
+                return ['%r: raised %s' % (text, v)]
+        for t, w in zip(traces, want):
+            got = [impl.outcome(impl.dt_update, spec, i, dict(zip(vs, e))) for i, e in enumerate(t)]
+            if explore_snapshot(got) != explore_snapshot(w):
+                return ['%r returns %r on %r, canonical on a fresh object %r' % (text, got, t, w)]
+            spec.reset()
+    return []
+
+
 def replay(case):
+    if case.get('same_object'):
+        return replay_same_object(case)
     if case.get('unless_case'):
         m = check_unless(case)
         return [m] if m else []
